@@ -98,6 +98,48 @@ def run(ctx):
     res = cr.sweep(ctx, PID, exe, jobs, job_ops, oracle)
     for job, ops, tr, bad, info in res:
         ctx.count("delay_points_checked", info.get("delay_points", 0))
+    # ---- the decidable hypotheses of delay_gt_neg_one_every_run and hearly_every_run (StageWF, PlanEarlyOK, PlanLatOK false, and the
+    #      post-context clause rate/2 <= 1 + offset + margin), evaluated by the Lean driver on the exported plan of every linear-phase job;
+    #      a plan that fails the post-context clause is searched for a stream length at which a frame too many is handed out
+    from checks import c04
+
+    def hyp(x):
+        job, ops, tr, bad, info = x
+        if not tr.plan:
+            return None
+        return job, tr, c04.plan_time(tr)[0]
+    known_ids = {f["id"] for f in common.known_active(PID)}
+    seen_sig = set()
+    todo = []
+    for x in res:
+        job, ops, tr, bad, info = x
+        linear = float(job["cfg"].get("phase", 50)) == 50 and not (int(job["cfg"].get("recipe", 4)) & 0x30)
+        sig = cr.plan_sig(tr)
+        if linear and tr.plan and sig not in seen_sig:
+            seen_sig.add(sig); todo.append(x)
+    searched = 0
+    for h in cr.pmap(hyp, todo):
+        if h is None:
+            continue
+        job, tr, t = h
+        ctx.count("plans_delay_hypotheses_checked")
+        if [k for k in cr.classify_known(tr.plan, job["cfg"]) if k in known_ids]:
+            continue
+        if t is None or int(t["lat"]) < 1 or t.get("early") != "1":
+            ctx.violation("hypothesis of delay_gt_neg_one_every_run fails on a plan of the real planner (PlanLatOK / PlanEarlyOK / StageWF): %s (%s %s)"
+                          % (t, cr.create_line(job["cfg"]), job["env"]), {"cfg": job["cfg"], "env": job["env"], "plan": tr.plan, "time": t}, no_input=True)
+        elif t.get("post") != "1":
+            found = cr.find_eoi_overrun(exe, job["cfg"], job["env"]) if searched < 5 else None
+            searched += 1
+            if found:
+                ctx.violation("C15 fails on the real code: %s, so soxr_delay() is negative once end-of-input is said (%s %s); the plan's post-context is below "
+                              "half an output period (hypothesis of hearly_every_run: %s)" % (found["what"], cr.create_line(job["cfg"]), job["env"], t),
+                              {"cfg": job["cfg"], "env": job["env"], "plan": tr.plan, "time": t, "ops": found["ops"] + ["feed 0 10 0", "delay"]})
+            else:
+                ctx.violation("hypothesis of hearly_every_run fails on a plan of the real planner (post-context below half an output period): %s (%s %s)"
+                              % (t, cr.create_line(job["cfg"]), job["env"]), {"cfg": job["cfg"], "env": job["env"], "plan": tr.plan, "time": t}, no_input=True)
+        else:
+            ctx.count("plans_where_hearly_every_run_applies")
     # ---- streams longer than an int can count (2^31 and 2^32 frames): samples_in / samples_out are 64-bit and the frames owed at
     #      end-of-input are computed from them; silence through the real engine in large calls (`fast 1`: input not synthesised, output
     #      not hashed), every call replayed through the count model, delay read before and after end-of-input and after the drain
